@@ -181,6 +181,11 @@ pub fn into_tokens(c: char, it: &mut Peekable<Chars>, state: &mut State) -> LexR
                 }
                 string.push(c);
 
+                if back_slash && build_cur_expr > 0 {
+                    // in an interpolated expression a backslash starts an anonymous function
+                    cur_expr.push(c);
+                }
+
                 if !back_slash {
                     if build_cur_expr > 0 {
                         cur_expr.push(c);
